@@ -72,6 +72,11 @@ type xferSpec struct {
 	NoSackComplete bool
 	BeforeClose    func(m *Sim, r *xferResult)
 	OnSendStream   func(m *Sim, st streamSpec, s *Stream)
+	// PreOpen: the receiving side opens every stream itself before traffic starts (no
+	// AcceptStream); SSNStart/MIDStart are installed as the sequence cursors on both sides.
+	PreOpen  bool
+	SSNStart uint16
+	MIDStart uint32
 	WriteTimeout   time.Duration // blocking-write mode: SetWriteDeadline before each write
 	ReaderDone     func(m *Sim, sid uint16)
 }
@@ -185,6 +190,44 @@ func xferScenario(spec *xferSpec, res *xferResult) *Scenario {
 			}
 			var readers []*vsched.Thread
 			var acceptors []*vsched.Thread
+			startReader := func(ep int, sid uint16, s *Stream) {
+				rt := m.Go(fmt.Sprintf("read%d.%d", ep, sid), func() {
+					if spec.PauseReader > 0 {
+						m.Sleep(spec.PauseReader)
+					}
+					buf := make([]byte, readBuf)
+					for {
+						n, ppi, err := s.ReadSCTP(buf)
+						if err != nil {
+							mu.Lock()
+							res.ReadErr[sid] = err
+							mu.Unlock()
+							return
+						}
+						mu.Lock()
+						res.Read[sid] = append(res.Read[sid], rmsg{Data: string(buf[:n]), PPI: ppi})
+						mu.Unlock()
+						m.Logf(fmt.Sprintf("read sid=%d", sid), "n=%d ppi=%d", n, ppi)
+					}
+				})
+				mu.Lock()
+				readers = append(readers, rt)
+				mu.Unlock()
+			}
+			if spec.PreOpen {
+				for _, st := range spec.Streams {
+					rs, err := m.As[1-st.From].OpenStream(st.SID, PayloadTypeWebRTCBinary)
+					if err != nil {
+						continue
+					}
+					rs.reassemblyQueue.nextSSN = spec.SSNStart
+					rs.reassemblyQueue.nextMID = spec.MIDStart
+					m.streamsSeen = append(m.streamsSeen, rs)
+					res.Accepted[st.SID] = true
+					startReader(1-st.From, st.SID, rs)
+				}
+				nIn = [2]int{}
+			}
 			for ep := 0; ep < 2; ep++ {
 				if nIn[ep] == 0 {
 					continue
@@ -267,6 +310,11 @@ func xferScenario(spec *xferSpec, res *xferResult) *Scenario {
 				m.streamsSeen = append(m.streamsSeen, s)
 				mu.Unlock()
 				s.SetReliabilityParams(st.Unordered, st.RelType, st.RelVal)
+				if spec.PreOpen {
+					s.sequenceNumber = spec.SSNStart
+					s.nextOrderedMID = spec.MIDStart
+					s.nextUnorderedMID = spec.MIDStart
+				}
 				if spec.OnSendStream != nil {
 					spec.OnSendStream(m, st, s)
 				}
